@@ -18,8 +18,8 @@ def run(r):
         rnd = [(500, dict(maxlen=6, share=1, named=0)), (200, dict(maxlen=5, share=1, named=2, base=0, seed_off=1))]
     else:
         fams = [("HID", 3, ABXY, 1, [0], {}), ("CAT", 3, ABX, 2, [s % 2], {}), ("F1", 3, AB, 48, [(s + 7) % 48], {}),
-                ("HID2", 3, [97, 98, 99, 100, 120], 24, [(s + 3) % 24], {}), ("TLR", 3, [97, 98, 32], 1, [0], {})]
-        rnd = [(100, dict(maxlen=5, share=1, named=0))]
+                ("HID2", 3, [97, 98, 99, 100, 120], 24, [(s + 3) % 24], {}), ("TLR", 3, [97, 98, 32], 1, [0], {}), ("HIDR", 4, AB, 3, [(s + 1) % 3], {})]
+        rnd = [(100, dict(maxlen=5, share=1, named=0)), (50, dict(maxlen=4, share=1, named=0, base=0, seed_off=3))]
     parsefam.run_plan(r, {"props": ["C02"], "families": fams, "random": rnd})
     if th:
         # termination as a liveness property (weak fairness of the machine's steps) on a small configuration
